@@ -40,8 +40,15 @@ func (p *Prog) indexClosures(pk *packages.Package, outerKey string, fd *ast.Func
 		decl := &ast.FuncDecl{Name: &ast.Ident{Name: id.Name, NamePos: fl.Pos()}, Type: fl.Type, Body: fl.Body}
 		p.Funcs[k] = &FuncInfo{Key: k, Decl: decl, Pkg: pk, Lit: fl, Outer: fd}
 	}
+	nGo := 0
 	ast.Inspect(fd.Body, func(n ast.Node) bool {
 		switch x := n.(type) {
+		case *ast.GoStmt:
+			// "go func() { ... }()": the k-th goroutine body of the function is "<key>$go<k>"
+			if fl, ok := ast.Unparen(x.Call.Fun).(*ast.FuncLit); ok {
+				nGo++
+				reg(&ast.Ident{Name: fmt.Sprintf("go%d", nGo)}, fl)
+			}
 		case *ast.AssignStmt:
 			if len(x.Lhs) == len(x.Rhs) {
 				for i, r := range x.Rhs {
